@@ -1210,8 +1210,11 @@ impl<R: std::io::BufRead> FlacStreamReader<R> {
                         std::slice::from_ref(&0b11111111).chain(self.reader.by_ref()),
                     );
 
-                    if let Ok(header) = FrameHeader::read_subset(&mut crc_reader) {
-                        break (header, crc_reader);
+                    match FrameHeader::read_subset(&mut crc_reader) {
+                        Ok(header) => break (header, crc_reader),
+                        // a failing reader is not a bad header
+                        Err(Error::Io(err)) => return Err(Error::Io(err)),
+                        Err(_) => { /* not a frame header, keep looking */ }
                     }
                 }
                 Ok(_) => continue,
